@@ -129,9 +129,32 @@ def run_tok(report, findings, rp):
         "outside": "sequences longer than the bound; spellings not in the alphabet (literal contents are covered at character level)",
     }
     candidates = {}
-    for ctx in CONTEXTS:
-        nmax = bounds.get(ctx.name, bounds["*"])
-        for n in range(0 if not ctx.prefix else 0, nmax + 1):
+    # degenerate and rare forms, every combination (multi-token hole classes): members / parameters / declarations that
+    # consist of specifiers only, empty bodies, lone designators, static assertions without arguments ...
+    from checks import c03
+    from symx.tokharness import PatCtx
+
+    deg_cls = {
+        "?Z": ["_Alignas ( 1 ) ;", "const ;", ";", ": 1 ;", "T ;", "int ;", "_Atomic ( T ) ;", "static int x ;", "_Alignas ( 1 ) const ;", "int x", "struct { } ;",
+               "enum { } ;", "_Static_assert ( ) ;", "_Static_assert ( 1 , ) ;", "int x : ;", "int x , ;", "_Atomic ( ) x ;", "_Alignas ( ) int x ;", "struct ;", "enum y ;"],
+        "?Y": ["", "int", "T", "_Alignas ( 1 )", "const", "register", "...", "int x ,", ", int", "void , void", "_Atomic ( )", "int ( )", "( )", "[ ]", "* ", "struct { }", "enum { y }"],
+        "?I": ["", ",", ". x", "[ 1 ]", ". x =", "[ 1 ] =", "[ ] = 1", ". = 1", "= 1", "{ }", "{ , }", "1 , , 07", "[ 1 ... 07 ] = 1"],
+        "?S": ["", ";", "case :", "case 1", "default", "default : }", "x :", "T :", ": ;", "else ;", "if ( )", "for ( )", "for ( ; )", "for ( ; ; ; )", "while ( )", "do ;", "do while ( 1 ) ;", "goto ;", "goto 1 ;", "return return ;", "break 1 ;", "switch ( )", "_Static_assert ( 1 )"],
+    }
+    deg = [
+        ("struct-members", ["typedef", "int", "T", ";"], "struct y { ?Z ?Z } ;", []),
+        ("file-scope", ["typedef", "int", "T", ";"], "?Z ?Z", []),
+        ("block", ["typedef", "int", "T", ";", "void", "y", "(", "void", ")", "{"], "?Z ?S ?Z ?S", ["}"]),
+        ("parameters", ["typedef", "int", "T", ";"], "void y ( ?Y , ?Y ) ; void x ( ?Y ) { } int ( * x ) ( ?Y ) ;", []),
+        ("initializers", ["typedef", "int", "T", ";"], "int x [ 1 ] = { ?I , ?I } ; int y = ( T ) { ?I } ;", []),
+        ("switch-body", ["typedef", "int", "T", ";", "void", "y", "(", "void", ")", "{", "switch", "(", "x", ")", "{"], "?S ?S ?S", ["}", "}"]),
+    ]
+    deg_ctxs = [PatCtx("degenerate:" + name, pre, pat, suf, deg_cls) for name, pre, pat, suf in deg] + [c for c, _ in c03.rare_contexts()]
+    report.bounds["token_level"]["degenerate_and_rare_patterns"] = {c.name: " ".join(c.prefix + c.pattern + c.suffix) for c in deg_ctxs}
+    report.bounds["token_level"]["degenerate_classes"] = deg_cls
+    for ctx in CONTEXTS + deg_ctxs:
+        nmax = 0 if isinstance(ctx, PatCtx) else bounds.get(ctx.name, bounds["*"])
+        for n in range(nmax if isinstance(ctx, PatCtx) else 0, nmax + 1):
             tpl = ctx.template(alpha, n)
             Lex = toklex.make_lexer_class(tpl)
 
@@ -143,11 +166,11 @@ def run_tok(report, findings, rp):
             def once(tpl=tpl, Lex=Lex):
                 return classify(P, Lex, tpl)
 
-            lvl = tokharness.split_level(tpl, ctx, n)
+            lvl = tokharness.split_level(tpl, ctx, n) if not isinstance(ctx, PatCtx) else len(ctx.prefix) + 1
             job = E.Job(f"{ctx.name}/{n}", make_engine, once, split=("input", lvl) if lvl else None, max_viol=30)
-            if n == min(2, nmax):
+            if n == min(2, nmax) and not isinstance(ctx, PatCtx):
                 report.functions |= tokharness.sample_census(job)
-            res = E.run_job(job, workers=None if n >= 3 else 1)
+            res = E.run_job(job, workers=None if (n >= 3 or isinstance(ctx, PatCtx)) else 1)
             report.add_run(job.name, res, describe=tpl.describe())
             for v in res.violations:
                 candidates.setdefault(v["sig"], []).append(v)
